@@ -252,8 +252,8 @@ def gen_cc(k, cl, flv, cp=False):
 
 def callers_of(k, flv):
     c = ["py", "pycc"]
-    if flv != "plain":
-        c += ["ng"] + (["pyccn"] if k.cls != "obj" else [])
+    if flv != "plain" and k.cls != "obj":      # an object result cannot be assigned without the GIL
+        c += ["ng", "pyccn"]
     return c
 
 
@@ -1133,7 +1133,7 @@ def run_cases(ctx, model, cases):
     risky = [i for i, e in enumerate(exps) if e["err"] and e["pend"] is None]
     rs = set(risky)
     safe = [i for i in range(len(cases)) if i not in rs]
-    nrisky = 8 if quick else 60
+    nrisky = 8 if quick else 40
     risky_run = sorted(ctx.rng.sample(risky, min(nrisky, len(risky))))
 
     def argv(c):
@@ -1158,7 +1158,7 @@ def run_cases(ctx, model, cases):
         c = cases[i]
         calls.append(["c32_drv.run", argv(c)]); owners.append([i])
     setup = "import c32_drv"
-    res = cybuild.call_cases(wd, calls, setup=setup, alarm=120, timeout=1500)
+    res = cybuild.call_cases(wd, calls, setup=setup, alarm=120, timeout=1500, max_crashes=200)
     redo = []
     for (fexpr, args), own, r in zip(calls, owners, res):
         if fexpr.endswith("batch"):
